@@ -1,6 +1,7 @@
 package c18
 
 import (
+	"crypto/sha256"
 	"bytes"
 	"context"
 	"fmt"
@@ -34,7 +35,11 @@ type stk struct {
 }
 
 func startStack(eng, prof string, wired bool, b *backend.Std, rt time.Duration) (*stk, error) {
-	spec := world.Spec{Engine: eng, Balancer: "priority", Profile: prof, ReadTimeout: rt, RespTimeout: 60 * time.Second,
+	return startStackRT(eng, prof, wired, b, rt, 60*time.Second)
+}
+
+func startStackRT(eng, prof string, wired bool, b *backend.Std, rt, respT time.Duration) (*stk, error) {
+	spec := world.Spec{Engine: eng, Balancer: "priority", Profile: prof, ReadTimeout: rt, RespTimeout: respT,
 		Endpoints: []world.Endpoint{{Name: "s", URL: b.URL(), Type: "ollama", Priority: 100}}}
 	if wired {
 		w, err := world.StartWired(spec)
@@ -151,7 +156,7 @@ func mkChunks(rng *rand.Rand, ct string, n int, sizes []int) ([][]byte, []byte) 
 func TestC18(t *testing.T) {
 	world.Quiet()
 	run := rep.New("C18", "fault_enumeration",
-		"hand-wired stacks for proxy profile in {auto, streaming, standard} x engine plus the production wiring (profile auto), one scripted backend each: (a) liveness with causally gated backends (chunk k+1 is withheld until the client has read chunk k) over content types {SSE, NDJSON, JSON, text, binary} x chunk sizes 1 B..256 KiB, chunked and close-delimited framing; (b) stalls after headers and mid-body and pauses of 0.4 x read_timeout (read_timeout 1.5 s); (c) client aborts before headers / after headers / mid-body; (d) three identical batches with goroutine and in-flight-connection counts compared at quiescence. distinct = distinct (stack, scenario, content type, size class)")
+		"hand-wired stacks for proxy profile in {auto, streaming, standard} x engine plus the production wiring (profile auto), one scripted backend each: (a) liveness with causally gated backends (chunk k+1 is withheld until the client has read chunk k) over content types {SSE, NDJSON, JSON, text, binary} x chunk sizes 1 B..256 KiB, chunked and close-delimited framing; (b) stalls before headers (on a stack with response_timeout = read_timeout = 1.5 s), after headers and mid-body, pauses of 0.4 x read_timeout (read_timeout 1.5 s), and a client that does not read for read_timeout + 0.7 s while the backend writes 48 MiB without pausing; (c) client aborts before headers / after headers / mid-body; (d) three identical batches with goroutine and in-flight-connection counts compared at quiescence. distinct = distinct (stack, scenario, content type, size class)")
 	run.Assume("liveness is decided causally: the backend does not send chunk k+1 until the client has chunk k; only if the client receives chunk k after k+1 was released is the verdict 'buffered'. Time bounds: read_timeout + 3 s slack (healthy: read_timeout + ms); a stalled request still open after read_timeout + 3 s is cut by the harness and reported.")
 	rng := rand.New(rand.NewSource(rep.Seed()))
 	type sdef struct {
@@ -198,6 +203,7 @@ func TestC18(t *testing.T) {
 	run.Require("liveness_cases", int64(len(stacks)*need))
 	run.Require("chunks_seen_before_next_was_sent", 200)
 	run.Require("stall_cases", int64(len(stacks)*2))
+	run.Require("slow_client_cases", int64(len(stacks)/2))
 	run.Require("abort_cases", int64(len(stacks)*3))
 	run.Require("leak_batches", 2)
 	run.Finish(t)
@@ -221,7 +227,16 @@ func runStack(run *rep.Run, rng *rand.Rand, eng, prof string, wired bool, id int
 		return
 	}
 	defer s.stop()
-	stalls(run, s, b, id)
+	stalls(run, s, b, id, false)
+	// a backend silent before its headers: on a stack whose response_timeout equals its
+	// read_timeout, so that "ends within the configured timeout" has one meaning there (the other
+	// stacks keep response_timeout at 60 s so that the two settings cannot stand in for each other)
+	if hs, err := startStackRT(eng, prof, wired, b, readTimeout, readTimeout); err == nil {
+		stalls(run, hs, b, id, true)
+		hs.stop()
+	} else {
+		run.Inconclusive("stack failed to start: " + err.Error())
+	}
 	aborts(run, s, b, id)
 }
 
@@ -327,16 +342,22 @@ func liveness(run *rep.Run, rng *rand.Rand, s *stk, b *backend.Std, id int) {
 
 // ---- (b) stalls and pauses ---------------------------------------------------------------
 
-func stalls(run *rep.Run, s *stk, b *backend.Std, id int) {
+func stalls(run *rep.Run, s *stk, b *backend.Std, id int, beforeHeaders bool) {
 	body := bytes.Repeat([]byte("0123456789abcdef"), 64) // 1 KiB
 	type sc struct {
 		name  string
 		cutAt int
 		ct    string
 	}
-	for i, c := range []sc{{"after-headers", 0, "sse"}, {"mid-body", 400, "sse"}, {"mid-body", 400, "json"}, {"after-headers", 0, "binary"}} {
+	for i, c := range []sc{{"after-headers", 0, "sse"}, {"mid-body", 400, "sse"}, {"mid-body", 400, "json"}, {"after-headers", 0, "binary"}, {"before-headers", 0, "sse"}} {
+		if (c.name == "before-headers") != beforeHeaders {
+			continue
+		}
 		stallCh := make(chan struct{})
 		b.SetProxy(func(r *backend.Record) *backend.Resp {
+			if c.name == "before-headers" {
+				return &backend.Resp{Fault: "stall_before_headers", StallCh: stallCh, MaxStall: 20 * time.Second}
+			}
 			return &backend.Resp{Status: 200, Headers: [][2]string{{"Content-Type", contentTypes[c.ct]}}, Body: body, Chunked: true, Fault: "cut_stall", CutAt: c.cutAt, StallCh: stallCh, MaxStall: 20 * time.Second}
 		})
 		t0 := time.Now()
@@ -367,6 +388,10 @@ func stalls(run *rep.Run, s *stk, b *backend.Std, id int) {
 		close(stallCh)
 		b.WaitIdle(3 * time.Second)
 	}
+	if beforeHeaders {
+		return
+	}
+	slowClient(run, s, b, id)
 	// pauses below the timeout must not be cut
 	for i, ct := range []string{"sse", "json"} {
 		chunks, all := mkChunks(rand.New(rand.NewSource(int64(i))), ct, 4, []int{300})
@@ -388,6 +413,49 @@ func stalls(run *rep.Run, s *stk, b *backend.Std, id int) {
 		if !bytes.Equal(got, all) || cl.status != 200 {
 			run.Violation(fmt.Sprintf("C18/pause-below-timeout-cut/%s", s.engine), fmt.Sprintf("backend paused %s between chunks (read_timeout %s); client got %d of %d bytes, err %v", readTimeout*4/10, readTimeout, len(got), len(all), cl.err), map[string]any{"stack": s.String(), "content_type": contentTypes[ct]})
 		}
+	}
+}
+
+// slowClient: the backend never pauses (it writes a large body as fast as the connection takes
+// it); the client reads a little, does not read for longer than read_timeout, then reads the
+// rest.  The stream completed, so it has to arrive whole.
+func slowClient(run *rep.Run, s *stk, b *backend.Std, id int) {
+	line := []byte(`{"response":"0123456789abcdef0123456789abcdef0123456789abcdef","done":false}` + "\n")
+	body := bytes.Repeat(line, (48<<20)/len(line))
+	want := sha256.Sum256(body)
+	b.SetProxy(func(r *backend.Record) *backend.Resp {
+		return &backend.Resp{Status: 200, Headers: [][2]string{{"Content-Type", "application/x-ndjson"}}, Body: body, Chunked: true}
+	})
+	ctx, cancel := context.WithTimeout(context.Background(), 60*time.Second)
+	defer cancel()
+	tr := &http.Transport{DisableKeepAlives: true, DisableCompression: true}
+	defer tr.CloseIdleConnections()
+	req, _ := http.NewRequestWithContext(ctx, "POST", fmt.Sprintf("%s/olla/proxy/v1/stream?n=w%d", s.base, id), bytes.NewReader([]byte(`{"prompt":"slow"}`)))
+	req.Header.Set("Content-Type", "application/json")
+	resp, err := tr.RoundTrip(req)
+	if err != nil {
+		run.Inconclusive("slow-client request failed before the response: " + err.Error())
+		return
+	}
+	defer resp.Body.Close()
+	h := sha256.New()
+	var got int64
+	first := make([]byte, 1024)
+	n, _ := io.ReadFull(resp.Body, first)
+	h.Write(first[:n])
+	got += int64(n)
+	time.Sleep(readTimeout + 700*time.Millisecond)
+	m, rerr := io.Copy(h, resp.Body)
+	got += m
+	b.WaitIdle(3 * time.Second)
+	run.Eval(fmt.Sprintf("%s/slow-client", s))
+	run.Count("slow_client_cases", 1)
+	var sum [32]byte
+	copy(sum[:], h.Sum(nil))
+	if resp.StatusCode != 200 || got != int64(len(body)) || sum != want {
+		run.Violation(fmt.Sprintf("C18/completed-stream-not-delivered-whole/%s/client-slower-than-read-timeout", s.engine), fmt.Sprintf("backend wrote a %d-byte stream without pausing; the client did not read for %s (read_timeout %s) and then got %d bytes (status %d, err %v)", len(body), readTimeout+700*time.Millisecond, readTimeout, got, resp.StatusCode, rerr), map[string]any{"stack": s.String(), "body_bytes": len(body), "client_bytes": got, "client_err": fmt.Sprint(rerr)})
+	} else {
+		run.Count("slow_client_streams_whole", 1)
 	}
 }
 
